@@ -1249,9 +1249,38 @@ func (r *aRun) oracleC19(v *aView) {
 			}
 		}
 		gotByLabels := map[string]float64{}
+		markerByLabels := map[string]float64{}
 		for k, val := range m {
 			if strings.HasPrefix(k, "sim_process_passed_records_total{") || strings.HasPrefix(k, "sim_process_dropped_records_total{") {
 				gotByLabels[keyLabelsOf(k)] += val
+			}
+			if strings.HasPrefix(k, "sim_process_labelled_records_total{") && strings.Contains(k, `label="marker"`) {
+				markerByLabels[keyLabelsOf(k)] += val
+			}
+		}
+		// E6: the counter of the drop filter is attributed to the key values of the records it dropped
+		wantMarker := map[string]int{}
+		for _, cs := range r.clients {
+			for _, cr := range cs.conns {
+				if cr.gen != gen {
+					continue
+				}
+				for _, sr := range cr.recs {
+					if sr.end <= cr.agentRead && sr.rec.Raw == "" && sr.rec.Drop {
+						wantMarker[r.s.metricLabelsOf(sr)]++
+					}
+				}
+			}
+		}
+		for lb, got := range markerByLabels {
+			out.Obligations++
+			if want := wantMarker[lb]; int(got) < want || int(got) > want+framed+unfinished-wellFormed {
+				r.note("C19", "E6-labelled-attribution", "E6-labelled-attribution", "generation %d: labelled{marker} under {%s} is %v, the agent read %d records with the marker and these key values", gen, lb, got, want)
+			}
+		}
+		for lb, want := range wantMarker {
+			if _, ok := markerByLabels[lb]; !ok && want > 0 {
+				r.note("C19", "E6-labelled-attribution", "E6-labelled-missing", "generation %d: no labelled{marker} counter under {%s}, the agent read %d records with the marker and these key values", gen, lb, want)
 			}
 		}
 		slack := framed + unfinished - wellFormed
